@@ -15,7 +15,7 @@ open LyModel LyModel.Generated
 /-- result of `yin_match_keyword` -/
 inductive MKw where
   | none | ext | kw (k : Bytes) | argText | argValue
-  deriving Repr, DecidableEq, BEq
+  deriving Repr, DecidableEq
 
 def sText : Bytes := [116, 101, 120, 116]
 def sErrMsg : Bytes := [101, 114, 114, 111, 114, 45, 109, 101, 115, 115, 97, 103, 101]
